@@ -362,3 +362,97 @@ def evaluate_tree(root, props=None):
             "n": len(ctx.obligations), "error": err,
         }
     return out
+
+
+
+def _rules_on(root, prop, mode="lib"):
+    """(violated ids, obligations count, error) of one property's rules on the tree at root"""
+    import importlib
+    facts, _ = ensure_facts(root, mode)
+    prog = Program(facts)
+    an = Analysis(prog, max_rounds=40)
+    mod = importlib.import_module("rss.rules.%s" % prop)
+    ctx = Ctx(prop, "thorough", prog, an, label=root)
+    err = None
+    try:
+        mod.rules(ctx)
+    except Exception:
+        import traceback
+        err = traceback.format_exc()[-400:]
+    bad = [(o.id, o.loc, o.detail[:200]) for o in ctx.obligations if o.status in ("violated", "anchor-missing")]
+    return bad, len(ctx.obligations), err, {"units": len(prog.units), "bodies": len(prog.bodies)}
+
+
+def _seed_job(args):
+    prop, sid, patch = args
+    import shutil
+    os.environ["RSS_CACHE"] = "/var/tmp/rss_cache_thorough_%s" % prop
+    work = "/var/tmp/rss_thorough_%s/%s" % (prop, sid)
+    shutil.rmtree(work, ignore_errors=True)
+    os.makedirs(work)
+    try:
+        subprocess.run(["rsync", "-a", "--exclude", "target", "--exclude", ".git", REPO + "/", work + "/"], check=True)
+        r = subprocess.run("patch -p1 --no-backup-if-mismatch < %s" % patch, cwd=work, shell=True,
+                           stdout=subprocess.PIPE, stderr=subprocess.STDOUT, text=True)
+        if r.returncode != 0:
+            return sid, {"applied": False}
+        bad, n, err, _ = _rules_on(work, prop)
+        return sid, {"applied": True, "reported_by": [b[0] for b in bad][:8], "error": err}
+    except Exception as e:
+        return sid, {"applied": False, "error": repr(e)}
+    finally:
+        shutil.rmtree(work, ignore_errors=True)
+
+
+def thorough_default(ctx):
+    """thorough tier: the same rules over (a) all targets, (b) the release profile; (c) the seeded corpus of this
+    property: every recorded breaking change is applied to a scratch copy (removed afterwards) and must be reported"""
+    import shutil
+    from concurrent.futures import ProcessPoolExecutor
+    prop = ctx.prop
+    extra = {"broken": []}
+    for mode, label in (("all", "all_targets"), ("release", "release_profile")):
+        try:
+            bad, n, err, info = _rules_on(REPO, prop, mode)
+            extra[label] = {"obligations": n, "violations": [b[0] for b in bad], "error": err, **info}
+            for b in bad:
+                o = ctx.ob("thorough.%s.%s" % (label, b[0].split("/", 1)[1]), "re-run", "-", "same rule on the %s build" % label)
+                o.loc = b[1]
+                ctx.bad(o, b[2])
+            if err:
+                extra["broken"].append("rules crashed on %s facts: %s" % (label, err[-200:]))
+        except Exception as e:
+            extra["broken"].append("%s analysis failed: %r" % (label, e))
+    seeds_dir = os.path.join(VERIF, "seeded")
+    jobs = []
+    expect = {}
+    table = os.path.join(VERIF, "seeded", "DETECTION.json")
+    det = json.load(open(table)) if os.path.exists(table) else {}
+    for sid in sorted(os.listdir(seeds_dir)) if os.path.isdir(seeds_dir) else []:
+        mp = os.path.join(seeds_dir, sid, "meta.json")
+        if not os.path.exists(mp):
+            continue
+        own = json.load(open(mp)).get("property") == prop
+        listed = any(x.startswith(prop + "/") for x in det.get(sid, {}).get("by", []))
+        if own or listed:
+            jobs.append((prop, sid, os.path.join(seeds_dir, sid, "patch.diff")))
+            expect[sid] = "own" if own else "listed"
+    res = {}
+    if jobs:
+        with ProcessPoolExecutor(min(8, len(jobs))) as ex:
+            for sid, r in ex.map(_seed_job, jobs):
+                res[sid] = r
+    shutil.rmtree("/var/tmp/rss_thorough_%s" % prop, ignore_errors=True)
+    shutil.rmtree("/var/tmp/rss_cache_thorough_%s" % prop, ignore_errors=True)
+    applied = [s for s, r in res.items() if r.get("applied")]
+    detected = [s for s in applied if res[s].get("reported_by")]
+    extra["seeded"] = {
+        "corpus": len(jobs), "applied": len(applied), "skipped_patch_does_not_apply": sorted(set(res) - set(applied)),
+        "detected": len(detected), "missed": sorted(set(applied) - set(detected)),
+        "per_seed": {s: {"expected": expect[s], **res[s]} for s in sorted(res)},
+    }
+    print("   thorough: all-targets %s, release %s, seeded corpus %d applied / %d detected%s" % (
+        "ok" if not extra.get("all_targets", {}).get("violations") else "VIOLATIONS",
+        "ok" if not extra.get("release_profile", {}).get("violations") else "VIOLATIONS",
+        len(applied), len(detected), (" (missed: %s)" % ", ".join(sorted(set(applied) - set(detected)))) if len(applied) != len(detected) else ""))
+    return extra
